@@ -36,6 +36,15 @@ pub fn hash_of(j: &J) -> u64 {
     h.finish()
 }
 
+/// The finding key a case carries (a text given as code points, or a plain string).
+pub fn fk_of(case: &J) -> J {
+    match case.get("fk") {
+        Some(j) if j.is_array() => json!(from_cps(j)),
+        Some(j) => j.clone(),
+        None => json!(null),
+    }
+}
+
 pub fn text_of(j: &J) -> String {
     from_cps(j)
 }
@@ -158,7 +167,8 @@ impl State {
     fn run_parse(&mut self, case: &J) {
         let toks: Vec<String> =
             case["toks"].as_array().map(|a| a.iter().map(text_of).collect()).unwrap_or_default();
-        let src = toks.join(" ");
+        let src = if case.get("src").is_some() { text_of(&case["src"]) } else { toks.join(" ") };
+        let check_wf = case["check"].as_str().unwrap_or("wf_tree").to_string();
         let class = case["class"].as_str().unwrap_or("");
         let bal = case["bal"].as_bool().unwrap_or(true);
         self.count(&format!("class_{class}"));
@@ -189,17 +199,22 @@ impl State {
                     (Ok(t), Some(want)) => {
                         let got = normalise(t);
                         if !same_tree(&got, &want) {
-                            self.fail("wf_tree", format!("{src:?}: tree differs from the grammar's"), case, observed.clone());
+                            self.fail_key(&check_wf, format!("{src:?}: tree differs from the specification's"), case, observed.clone(), fk_of(case));
                         }
                         self.check_occurrences(case, &src, t);
                     },
-                    (Err(e), _) => self.fail(
-                        "wf_tree",
-                        format!("{src:?}: well-formed input rejected with {e:?}"),
-                        case,
-                        observed.clone(),
-                    ),
+                    (Err(e), _) => {
+                        self.fail_key(&check_wf, format!("{src:?}: well-formed input rejected with {e:?}"), case, observed.clone(), fk_of(case))
+                    },
                     (_, None) => self.bad_lines += 1,
+                }
+            },
+            "LEXERR" => {
+                self.distinct("lexerr", case);
+                self.sample("LEXERR", json!({"source": src, "observed": observed}));
+                if built.is_ok() {
+                    self.fail(&check_wf, format!("{src:?}: the specification's lexer rejects this input, the crate accepts it"), case,
+                              observed.clone());
                 }
             },
             "IF" => {
@@ -260,6 +275,32 @@ impl State {
                     }
                 }
             },
+        }
+        // C07: a second rendering of the same token sequence (other separators) must precompile to an equal tree or
+        // fail with the same error
+        if case.get("src2").is_some() {
+            let src2 = text_of(&case["src2"]);
+            self.distinct("two_renderings", case);
+            match guard(|| build_operator_tree::<DefaultNumericTypes>(&src2)) {
+                Ok(b2) => {
+                    let same = match (&built, &b2) {
+                        (Ok(a), Ok(b)) => a == b,
+                        (Err(a), Err(b)) => a == b,
+                        _ => false,
+                    };
+                    if !same {
+                        let show = |r: &Result<Tree, E>| match r {
+                            Ok(t) => format!("Ok({t})"),
+                            Err(e) => format!("Err({e:?})"),
+                        };
+                        self.fail("separators", format!("{src:?} gives {} but {src2:?} gives {}", show(&built), show(&b2)), case,
+                                  json!({"second": match &b2 { Ok(t) => json!({"ok": true, "tree": enc_tree(&normalise(t))}),
+                                                               Err(e) => json!({"ok": false, "e": enc_error(e)}) }}));
+                    }
+                    self.sample("two_renderings", json!({"first": src, "second": src2, "equal": same}));
+                },
+                Err(p) => self.fail("panic", format!("build_operator_tree({src2:?}) panicked at {p}"), case, json!({"panic": p})),
+            }
         }
         // C12 (code against code, for every class of input): a precompilation error is returned unchanged by every
         // string-level entry point; otherwise string level and tree level agree
@@ -339,7 +380,7 @@ impl State {
         self.sample(&check, json!({"source": src, "level": level, "entry": format!("{}_{}", kind.name(), mode.name()),
                                    "context": case["ctx"], "allowed": case["allowed"], "observed": observed}));
         if !pats.iter().any(|p| matches(p, &obs, exact)) {
-            let fk = case.get("fk").cloned().unwrap_or(json!(null));
+            let fk = fk_of(case);
             self.fail_key(
                 &check,
                 format!("{src:?} ({level}-level eval_{}_{}): observed {}, the specification allows {}", kind.name(), mode.name(),
